@@ -150,6 +150,13 @@ def run(ctx):
                     e = dict(base)
                     e[s] = v
                     envs.append(e)
+        # every splitter printing as the empty string: with no (or an empty) salt the hashed key is '' - still a key
+        if envs:
+            e = dict(envs[0])
+            for s in prog.splitters:
+                if gp.kinds.get(s) in ("any", "str"):
+                    e[s] = ""
+            envs.append(e)
         envs = [e for e in envs if selection(prog, e) is not None]
         if envs:
             corpus.append((gp, prog, envs))
@@ -168,6 +175,9 @@ def run(ctx):
     # two sources sharing one experiment name, differing in weights (class-level caches keyed by name)
     twin_a = 'def same_name { salt: "t" splitters: uid, sid return "a" weighted 1, "b" weighted 1 }'
     twin_b = 'def same_name { salt: "t" splitters: uid, sid return "a" weighted 1, "b" weighted 9 }'
+    # siblings that differ only in white space *inside* a string literal (and so mean different things)
+    sib_a = 'def sib { salt: "s 1" splitters: uid, sid return "a" weighted 1, "b" weighted 1, "c" weighted 1 }'
+    sib_b = 'def sib { salt: "s  1" splitters: uid, sid return "a" weighted 1, "b" weighted 1, "c" weighted 1 }'
 
     # ---- layer 1: in-process history ----------------------------------------------------------------
     table = {}  # (text, env_key) -> canonical outcome
@@ -257,6 +267,22 @@ def run(ctx):
                     if not record(otext, other[2][j], im.call(oev, other[2][j]), osid, "interleaved-other-program"):
                         return
             elif op == "twin":
+                # one long-lived evaluator taken from sibling to sibling and back; each state compared (through the table)
+                # with fresh evaluators of the same text
+                sib = new_eval(sib_a)
+                for t in (sib_b, sib_a, sib_b):
+                    try:
+                        sib[0].recompile(t)
+                    except Exception:  # noqa: BLE001
+                        ctx.count("recompile-raised (C11's business)")
+                        break
+                    fresh = new_eval(t)
+                    for u in ("x", 1, li):
+                        env = dict(uid=u, sid="k")
+                        if not record(t, env, im.call(fresh[0], env), fresh[2], "fresh-sibling"):
+                            return
+                        if not record(t, env, im.call(sib[0], env), sib[2], "recompiled-to-whitespace-sibling"):
+                            return
                 for t in (twin_a, twin_b):
                     te = new_eval(t)
                     for u in (1, "x", 2.5):
